@@ -1101,7 +1101,8 @@ class Gen:
         depth = rng.choice([1, 1, 2, 3])
         for level in range(depth):
             ck = rng.choice(['mapping', 'file', 'blob', 'temp', 'temp', 'hexmapping', 'hexfile', 'cfgmapping', 'cfgfile'])
-            first = rng.choice([rng.choice(self.pool), 40 + level, 60 + rng.randrange(5)])
+            # (random.randint(1, 1 << 62): the running candidate never comes near the top of the oid space)
+            first = rng.choice([rng.choice([x for x in self.pool if x < 2 ** 62]), 40 + level, 60 + rng.randrange(5)])
             if ck.startswith('cfg') and level == 0 and bk in ('file', 'blob') and not self.w.top.packed \
                     and rng.random() < 0.7:
                 ck = 'w' + ck           # the whole <demostorage> section over the closed and reopened base file
